@@ -66,7 +66,7 @@ var (
 		`/home/[^/]+/`, `@{HOME}/`,
 
 		// Resolve system variables
-		`/att/[^/@]+`, `@{att}/`,
+		`^/att/[^/@]+`, `@{att}/`, // The attach_disconnected.path prefix, not a directory called att
 		`/usr/lib(32|64|exec)`, `@{lib}`,
 		`/usr/lib`, `@{lib}`,
 		`/usr/(bin|sbin)`, `@{bin}`,
@@ -78,9 +78,7 @@ var (
 		`user/[0-9]*/`, `user/@{uid}/`,
 		`/tmp/user/@{uid}/`, `@{tmp}/`,
 		`/proc/`, `@{PROC}/`,
-		`@{PROC}/1/`, `@{PROC}/one/`, // Go does not support lookahead assertions like (?!1\b)d+, so we have to use a workaround
-		`@{PROC}/[0-9]*/`, `@{PROC}/@{pid}/`,
-		`@{PROC}/one/`, `@{PROC}/1/`,
+		`@{PROC}/([02-9]|[0-9][0-9]+)/`, `@{PROC}/@{pid}/`, // Any pid but 1 (no marker word: a directory may be called anything)
 		`@{PROC}/@{pid}/task/[0-9]*/`, `@{PROC}/@{pid}/task/@{tid}/`,
 		`/sys/`, `@{sys}/`,
 		`@{PROC}@{sys}/`, `@{PROC}/sys/`,
@@ -151,7 +149,7 @@ func New(file io.Reader, profile string) AppArmorLogs {
 			if len(kv) >= 2 {
 				key, value := kv[0], kv[1]
 				if slices.Contains(toClean, key) {
-					value = regResolveLogs.Replace(kv[1])
+					value = resolveLog(kv[1])
 				}
 				aa[key] = strings.Trim(value, `"`)
 			}
@@ -160,6 +158,24 @@ func New(file io.Reader, profile string) AppArmorLogs {
 	}
 
 	return aaLogs
+}
+
+// resolveLog generalises a path. A pattern that starts with a slash does not
+// start at the slash that follows a variable inserted before: that slash belongs
+// to the variable (@{HOME}/usr/bin is not @{HOME}@{bin}).
+func resolveLog(value string) string {
+	for _, aa := range regResolveLogs {
+		pattern := aa.Regex.String()
+		if !strings.HasPrefix(pattern, "/") || strings.Contains(pattern, "}/") || !strings.Contains(value, "}/") {
+			value = aa.Regex.ReplaceAllLiteralString(value, aa.Repl)
+			continue
+		}
+		value = aa.Regex.ReplaceAllStringFunc(strings.ReplaceAll(value, "}/", "}\x00"), func(match string) string {
+			return aa.Repl
+		})
+		value = strings.ReplaceAll(value, "\x00", "/")
+	}
+	return value
 }
 
 // String returns a formatted AppArmor logs string
